@@ -2,6 +2,8 @@ package main
 
 import (
 	"bufio"
+	"encoding/binary"
+	"hash/fnv"
 	"flag"
 	"fmt"
 	"math"
@@ -371,6 +373,7 @@ func c15Trace(args []string) {
 	linesFile := fs.String("lines", "", "file with batch lines")
 	seed := fs.Uint64("seed", 1, "seed")
 	maxCases := fs.Int("cases", 60, "groundwater-update transitions emitted per run for the model comparison")
+	pairs := fs.Int("session-pairs", 0, "pairs of lines re-run in one shared session and compared with their fresh-session runs")
 	fs.Parse(args)
 	r := newRng(*seed)
 	f, err := os.Open(*linesFile)
@@ -379,19 +382,69 @@ func c15Trace(args []string) {
 	}
 	sc := bufio.NewScanner(f)
 	lineNo := 0
+	var allLines, digests []string
 	for sc.Scan() {
 		line := sc.Text()
 		if len(line) == 0 {
 			continue
 		}
-		c15TraceLine(*work, line, lineNo, r, *maxCases)
+		allLines = append(allLines, line)
+		digests = append(digests, c15TraceLine(*work, line, lineNo, r, *maxCases, nil, false))
 		lineNo++
+	}
+	// several runs in ONE session (as the batch executable runs them): nothing saved by a run (parameter backups, table
+	// values, groundwater series) may reach the next one — the second run of a pair must reproduce its fresh-session digest
+	for k := 0; k < *pairs && len(allLines) > 1; k++ {
+		j, i := r.intn(len(allLines)), r.intn(len(allLines))
+		if i == j {
+			i = (j + 1) % len(allLines)
+		}
+		sess := hermes.NewHermesSession()
+		c15TraceLine(*work, allLines[j]+" resultfolder=R/pair_a", j, r, 0, sess, true)
+		d := c15TraceLine(*work, allLines[i]+" resultfolder=R/pair_b", i, r, 0, sess, true)
+		sess.Close()
+		emit(jobj{"k": "sessionpair", "first": j, "second": i, "same": d == digests[i]})
+		if d != digests[i] {
+			oracleFail("session-carry-over second_line=%d after_line=%d fresh=%s in_shared_session=%s", i, j, digests[i], d)
+		}
 	}
 }
 
 func cp(a []float64) []float64 { return append([]float64(nil), a...) }
 
-func c15TraceLine(work, line string, lineNo int, r *rng, maxCases int) {
+// runIn runs one batch line in a given session (several lines per session, as the batch executable does)
+func c15RunIn(session *hermes.HermesSession, workdir string, args []string) runResult {
+	out := make(chan *hermes.RunReturn, 1)
+	logs := make(chan string, 1000)
+	done := make(chan struct{})
+	go func() {
+		for range logs {
+		}
+		close(done)
+	}()
+	session.Run(workdir, args, "[0]", out, logs)
+	res := <-out
+	close(logs)
+	<-done
+	rr := runResult{Success: res.Success}
+	if res.Err != nil {
+		rr.Err = res.Err.Error()
+	}
+	return rr
+}
+
+// c15TraceLine returns a digest of every day's parameters (quiet = nothing is emitted: used for the session carry-over comparison)
+func c15TraceLine(work, line string, lineNo int, r *rng, maxCases int, session *hermes.HermesSession, quiet bool) string {
+	emit := func(o jobj) {
+		if !quiet {
+			emit(o)
+		}
+	}
+	oracleFail := func(format string, a ...interface{}) {
+		if !quiet {
+			oracleFail(format, a...)
+		}
+	}
 	var days []c15Day
 	first := true
 	initial := true
@@ -437,7 +490,7 @@ func c15TraceLine(work, line string, lineNo int, r *rng, maxCases int) {
 			}
 			static = jobj{"line": lineNo, "route": route, "ptf": g.PTF, "cappar": g.CAPPAR, "n": N, "azho": g.AZHO, "gw": hx(g.GW), "initgrw": hx(initGRW),
 				"hz": hz, "wb": hxs(g.W_Backup[:N]), "wmb": hxs(g.WMIN_Backup[:N]), "pb": hxs(g.PORGES_Backup[:N]), "wnb": hxs(g.WNOR_Backup[:N]),
-				"sand": g.BART[0][0] == 'S', "gwfrom": g.GROUNDWATERFROM.String()}
+				"sand": g.BART[0][0] == 'S', "gwfrom": g.GROUNDWATERFROM.String(), "autoirri": g.AUTOIRRI, "gwphase": g.GWPhase}
 			s2 := jobj{"k": "static"}
 			for k, v := range static {
 				s2[k] = v
@@ -527,7 +580,12 @@ func c15TraceLine(work, line string, lineNo int, r *rng, maxCases int) {
 			}
 		}
 	}
-	res := runProject(work, splitArgs(line))
+	var res runResult
+	if session != nil {
+		res = c15RunIn(session, work, splitArgs(line))
+	} else {
+		res = runProject(work, splitArgs(line))
+	}
 	hermes.VerifProbe = nil
 	// ---- return to a previous level: same parameters ----
 	same := func(a, b c15Day) int {
@@ -573,6 +631,19 @@ func c15TraceLine(work, line string, lineNo int, r *rng, maxCases int) {
 	for k, v := range fails {
 		counts[k] = v
 	}
+	hsh := fnv.New64a()
+	for _, d := range days {
+		for _, arr := range [][]float64{d.w, d.wm, d.por, d.wnor, {d.wred, d.grw}} {
+			for _, v := range arr {
+				var b [8]byte
+				binary.LittleEndian.PutUint64(b[:], math.Float64bits(v))
+				hsh.Write(b[:])
+			}
+		}
+	}
+	digest := fmt.Sprintf("%d:%x", len(days), hsh.Sum64())
+	defer func() {}()
 	emit(jobj{"k": "run", "line": lineNo, "success": res.Success, "err": res.Err, "days": nDays, "gw_changes": nChanged, "gw_slow_changes": nSlow, "levels": levels,
 		"return_pairs": pairs, "route": route, "fail_counts": counts})
+	return digest
 }
